@@ -256,6 +256,7 @@ func c11Scenario(s c11Session) explore.Scenario {
 				os.WriteFile(filepath.Join(root, "f"), []byte("abc"), 0o644)
 				os.Mkdir(filepath.Join(root, "d"), 0o755)
 				fd0 = fdCount()
+				gcOff()
 				opts := []ServerOption{WithServerWorkingDirectory(root)}
 				if s.alloc {
 					opts = append(opts, WithAllocator())
@@ -476,8 +477,10 @@ func c11Scenario(s c11Session) explore.Scenario {
 					}
 				}
 			} else if fd0 >= 0 {
-				if n := fdCount(); n != fd0 {
-					return fail("c11-fd-leak", "%d file descriptors open after Serve returned, %d before the session", n, fd0)
+				left := fdsUnder(root)
+				gcOn()
+				if len(left) > 0 {
+					return fail("c11-fd-leak", "files of the served tree still open after Serve returned: %v", left)
 				}
 			}
 			return v
@@ -700,7 +703,6 @@ func c11HangupScenario(server string, burst []c11Sym) explore.Scenario {
 	return func() (func(), func(*vsched.Exec) explore.Verdict) {
 		var h *c11Handler
 		var root string
-		fd0 := -1
 		var served bool
 		var nresp int
 		body := func() {
@@ -716,7 +718,7 @@ func c11HangupScenario(server string, burst []c11Sym) explore.Scenario {
 				root = scratchDir()
 				os.WriteFile(filepath.Join(root, "f"), []byte("abc"), 0o644)
 				os.Mkdir(filepath.Join(root, "d"), 0o755)
-				fd0 = fdCount()
+				gcOff()
 				sv, err := NewServer(conn, WithServerWorkingDirectory(root))
 				if err != nil {
 					panic(err)
@@ -804,10 +806,11 @@ func c11HangupScenario(server string, burst []c11Sym) explore.Scenario {
 						return v
 					}
 				}
-			} else if n := fdCount(); n != fd0 {
-				v.Bad = fmt.Sprintf("hang-up with %v in flight: %d file descriptors open after Serve returned, %d before", burst, n, fd0)
+			} else if left := fdsUnder(root); len(left) > 0 {
+				v.Bad = fmt.Sprintf("hang-up with %v in flight: files of the served tree still open after Serve returned: %v", burst, left)
 				v.Key = "c11-hangup-fd-leak"
 			}
+			gcOn()
 			return v
 		}
 		return body, judge
